@@ -188,3 +188,19 @@ Definition smismatches (cs : list scase) : list N := Run.bad_indices (scase_ok_v
 Definition smismatches_tree (cs : list scase) : list N := Run.bad_indices (scase_ok_v v_tree sv_tree) cs 0.
 Definition smodel (c : scase) :=
   let '(os, sf) := strace v_fixed sv_fixed (srv_init (sc_nofwd c) (sc_vrfs c)) (sc_hist c) in (os, sfinal_of sf).
+
+(* A history whose last request was cut off by a transport failure while it was being answered.  How many of its
+   operations the server applies before it notices is a matter of goroutine timing; the implementation's final state
+   must be the model's after ONE of the listed continuations (the harness lists: the request truncated to each of
+   its prefixes, then the session gone).  No alternatives = an ordinary case. *)
+Record scase_alt := { sa_case : scase; sa_alts : list (list sinput) }.
+Definition mk_scase_alt a b := {| sa_case := a; sa_alts := b |}.
+Definition scase_alt_ok_v (rv : variant) (sv : svariant) (c : scase_alt) : bool :=
+  let k := sa_case c in
+  let '(os, sf) := strace rv sv (srv_init (sc_nofwd k) (sc_vrfs k)) (sc_hist k) in
+  Run.list_eqb sout_eqb os (sc_outs k) &&
+  match sa_alts c with
+  | [] => sfinal_eqb (sfinal_of sf) (sc_final k)
+  | alts => existsb (fun alt => sfinal_eqb (sfinal_of (snd (strace rv sv sf alt))) (sc_final k)) alts
+  end.
+Definition samismatches (cs : list scase_alt) : list N := Run.bad_indices (scase_alt_ok_v v_fixed sv_fixed) cs 0.
